@@ -51,6 +51,8 @@ func HarnessHookTasks() {
 	hooks := task.Tasks{world.Tasks[0], world.Tasks[1]}
 	outcome := []int{vrt.IntRange("outcome", exitsZero, silent), vrt.IntRange("outcome", exitsZero, silent)}
 	lateReport := vrt.Bool("silent.hook.reports.after.its.timeout")
+	secondIsSlow := vrt.Bool("second.hook.takes.its.time")
+	arrival := []int{-1, -1} // when each hook's own report arrives (-1: never)
 	triggerFails := vrt.Bool("trigger.cannot.be.sent")
 	report := func(t *task.Task, how int) {
 		e := &event.BasicTaskTerminated{FinalMesosState: mesos.TASK_FINISHED}
@@ -72,9 +74,15 @@ func HarnessHookTasks() {
 			return errors.New("cannot send the trigger command")
 		}
 		go func() {
+			clock := 0 // milliseconds since the trigger, as far as this reporter is concerned
+			wait := func(ms int) {
+				<-time.After(time.Duration(ms) * time.Millisecond)
+				clock += ms
+			}
 			for i, h := range hs {
-				if outcome[i] != silent {
-					<-time.After(10 * time.Millisecond) // the listener is waiting
+				if outcome[i] != silent && !(i == 1 && secondIsSlow) {
+					wait(10) // the listener is waiting
+					arrival[i] = clock
 					report(h, outcome[i])
 				}
 			}
@@ -83,13 +91,19 @@ func HarnessHookTasks() {
 					if outcome[i] == silent {
 						// ... after its own timeout has fired (300 ms, or 600 ms for the second hook)
 						if i == 1 && longer {
-							<-time.After(750 * time.Millisecond)
+							wait(750 - clock)
 						} else {
-							<-time.After(450 * time.Millisecond)
+							wait(450 - clock)
 						}
+						arrival[i] = clock
 						report(h, exitsZero)
 					}
 				}
+			}
+			if secondIsSlow && outcome[1] != silent {
+				wait(60) // the second hook takes its time: its report comes after everything else
+				arrival[1] = clock
+				report(hs[1], outcome[1])
 			}
 		}()
 		return nil
@@ -106,7 +120,12 @@ func HarnessHookTasks() {
 			anyFailed = true
 			continue
 		}
-		vrt.Assert(failed == (outcome[i] != exitsZero), "exactly-the-hooks-that-did-not-exit-zero-are-reported-failed")
+		timeout := 300
+		if i == 1 && longer {
+			timeout = 600
+		}
+		inTime := arrival[i] >= 0 && arrival[i] < timeout && outcome[i] != silent
+		vrt.Assert(failed == !(outcome[i] == exitsZero && inTime), "exactly-the-hooks-that-did-not-exit-zero-in-time-are-reported-failed")
 		anyFailed = anyFailed || failed
 	}
 	vrt.Assert(len(errs) <= 2, "only-the-triggered-hooks-are-reported")
